@@ -249,6 +249,9 @@ async fn scenario(world: Rc<World>, sc: RcScript) -> AResult<(Vec<OutageResult>,
                         if !ok {
                             l.borrow_mut().victim_final = Some(err);
                             poke();
+                            // asked again after the error (see the subscriber driver)
+                            let again = tokio::time::timeout(Duration::from_secs(2), publisher.send("0".to_string())).await;
+                            l.borrow_mut().notes.push(format!("asked again after the error: {}", match again { Ok(Ok(())) => "ok".to_string(), Ok(Err(e)) => format!("error {e}"), Err(_) => "pending".to_string() }));
                             failed = true;
                             break;
                         }
@@ -275,6 +278,10 @@ async fn scenario(world: Rc<World>, sc: RcScript) -> AResult<(Vec<OutageResult>,
                         Err(e) => {
                             l.borrow_mut().victim_final = Some(e.to_string());
                             poke();
+                            // an application may well ask a stream again after an error: the
+                            // answer is another error or the end, whatever the stream's state
+                            let again = tokio::time::timeout(Duration::from_secs(2), sub.next()).await;
+                            l.borrow_mut().notes.push(format!("asked again after the error: {}", match again { Ok(Some(Ok(_))) => "item".to_string(), Ok(Some(Err(e))) => format!("error {e}"), Ok(None) => "end".to_string(), Err(_) => "pending".to_string() }));
                             break;
                         }
                     }
@@ -588,7 +595,7 @@ pub fn gen_backoff(rng: &mut Rng, wide: bool) -> BackoffCfg {
     let strategy = match rng.below(3) {
         0 => Strategy::Constant,
         1 => Strategy::Linear,
-        _ => Strategy::Exponential(if wide { *rng.pick(&[0u64, 1, 2, 3, 10, 1 << 32, u64::MAX]) } else { *rng.pick(&[1u64, 2, 3]) }),
+        _ => Strategy::Exponential(if wide { *rng.pick(&[0u64, 1, 2, 2, 3, 4, 10, 16, 1 << 32, 1 << 63, u64::MAX]) } else { *rng.pick(&[1u64, 2, 3]) }),
     };
     let step_ms = if wide { *rng.pick(&[0u64, 1, 50, 700, 5_000, 1_000_000, 1_000_000_000_000]) } else { *rng.pick(&[1u64, 20, 100, 300, 700, 1500]) };
     let max_attempts = if wide { *rng.pick(&[0u32, 1, 2, 3, 5, 8, 21, 66, 130, 300]) } else { *rng.pick(&[0u32, 1, 2, 3, 4, 6]) };
